@@ -107,7 +107,7 @@ func c10Alphabet(full bool) []qop {
 		{Op: "Q", Kind: "plain", Name: "g1", Size: 2, Fill: 'p'},
 		{Op: "Q", Kind: "plain", Name: "g2", Size: 2, Fill: 'q'},
 		{Op: "Q", Kind: "plain", Name: "g*", Size: 2, Fill: 'w'}, // its Invalidates says yes to whatever it is shown
-		{Op: "Q", Kind: "named", Name: "", Size: 2, Fill: 'e'}, // a subject whose name is the empty string, next to nameless broadcasts
+		{Op: "Q", Kind: "named", Name: "", Size: 2, Fill: 'e'},   // a subject whose name is the empty string, next to nameless broadcasts
 		{Op: "G", Ov: 0, Lim: 2},
 		{Op: "G", Ov: 0, Lim: 100},
 		{Op: "G", Ov: 2, Lim: 4},
